@@ -87,7 +87,7 @@ Fresh(l, cfg, prev) ==
    cid |-> cfg.client_id, kaAdv |-> cfg.ka, K |-> 0,
    reqs |-> << >>, hmap |-> << >>, recn |-> 0,
    owed |-> << >>, aw |-> 0, sids |-> {},
-   unres |-> {}, dcids |-> {}, pe |-> "", dcan |-> FALSE, taint |-> 0, connectLen |-> 0, d9b |-> FALSE,
+   unres |-> {}, dcids |-> {}, pe |-> "", pio |-> "", c10off |-> FALSE, dcan |-> FALSE, taint |-> 0, connectLen |-> 0, d9b |-> FALSE,
    lastDone |-> 0, afterPing |-> FALSE, pingAt |-> -1, pingDoneAt |-> -1, pingOut |-> FALSE, overslept |-> TRUE, wake |-> -1,
    dead |-> FALSE, ioDead |-> << 0, 0, 0 >>, lastio |-> << 0, 0, 0 >>,
    sum |-> EmptySum, prev |-> prev, mark |-> 0,
@@ -146,12 +146,16 @@ ReqMatches(r, d) ==
 \* already bound to this identifier, then the oldest unbound one.
 FindReq(h, d) ==
   LET M == {k \in 1..Len(h.reqs) : ReqMatches(h.reqs[k], d) /\ h.reqs[k].ep = h.epoch
-                                    /\ h.reqs[k].ph # "done"}
+                                    /\ h.reqs[k].ph # "done" /\ h.reqs[k].st # "ref"}
       B == {k \in M : h.reqs[k].id = d.id}
       U == {k \in M : h.reqs[k].id = 0}
+      \* requests with the same content that were refused locally: only if nothing else explains
+      \* the packet is it attributed to one of them (and then reported)
+      R == {k \in 1..Len(h.reqs) : ReqMatches(h.reqs[k], d) /\ h.reqs[k].st = "ref" /\ h.reqs[k].ep = h.epoch}
       A == {k \in 1..Len(h.reqs) : ReqMatches(h.reqs[k], d)}
   IN IF B # {} THEN CHOOSE k \in B : \A j \in B : k <= j
      ELSE IF U # {} THEN CHOOSE k \in U : \A j \in U : k <= j
+     ELSE IF R # {} THEN CHOOSE k \in R : \A j \in R : k >= j
      ELSE IF A # {} THEN CHOOSE k \in A : \A j \in A : k >= j      \* stale: latest
      ELSE 0
 
@@ -176,16 +180,16 @@ Truth(h, k) ==
 \* silence is no longer than the round-trip bound.
 C10Gap(h, afterPing) ==
   LET gap == h.now - h.lastDone
-      h1 == IF h.up /\ h.K > 0 /\ ~h.overslept /\ h.op.name \in {"poll", "recv"}
+      h1 == IF h.up /\ h.K > 0 /\ ~h.overslept /\ ~h.c10off /\ h.op.name \in {"poll", "recv"}
             THEN CheckKF(Tick(h, "C10"), gap <= h.K, "C10",
                          "time between consecutive client packets exceeds the keep-alive",
-                         "D10", h.K < 5000 /\ (h.pingAt >= 0 \/ h.pingDoneAt = h.now) /\ gap <= 5000)
+                         "D10", h.K < 5000 /\ (h.pingAt >= 0 \/ h.pingDoneAt = h.now) /\ gap <= 5300)
             ELSE h
   IN [h1 EXCEPT !.lastDone = h.now, !.overslept = FALSE]
 
 \* the client went to sleep inside poll/recv asking to be woken at `wake`
 C10Yield(h, wake) ==
-  IF ~(h.up /\ ~h.dead /\ h.op.name \in {"poll", "recv"} /\ h.pe = "rpend") THEN h
+  IF ~(h.up /\ ~h.dead /\ ~h.c10off /\ h.op.name \in {"poll", "recv"} /\ h.pe = "rpend") THEN h
   ELSE
   LET h1 == IF h.K > 0 /\ ~h.overslept
             THEN CheckKF(Tick(h, "C10"), wake >= 0 /\ wake <= h.lastDone + h.K, "C10",
@@ -193,7 +197,7 @@ C10Yield(h, wake) ==
                          "D10", h.K < 5000 /\ h.pingAt >= 0 /\ wake >= 0 /\ wake <= h.pingAt + 5000)
             ELSE h
       h2 == IF h.pingAt >= 0
-            THEN Check(h1, h.now < h.pingAt + 5000 /\ wake >= 0 /\ wake <= h.pingAt + 5000, "C10",
+            THEN Check(h1, h.now < h.pingAt + 5300 /\ wake >= 0 /\ wake <= h.pingAt + 5000, "C10",
                        "unanswered PINGREQ not detected at the round-trip bound")
             ELSE h1
   IN [h2 EXCEPT !.wake = wake]
@@ -537,7 +541,7 @@ IoOnDead(h) ==
 StepConn(h, e) ==
   [h EXCEPT !.ci = @ + 1, !.wtail = << >>, !.wn = 0, !.wdisc = FALSE, !.rtail = << >>,
             !.btail = << >>, !.ack = NoAck, !.aw = 0, !.unres = {}, !.dcan = FALSE, !.taint = 0,
-            !.dead = FALSE, !.pingAt = -1, !.pingOut = FALSE, !.overslept = TRUE, !.up = FALSE,
+            !.dead = FALSE, !.c10off = FALSE, !.pio = "", !.pingAt = -1, !.pingOut = FALSE, !.overslept = TRUE, !.up = FALSE,
             !.op = [name |-> "conn", l |-> h.l, prog |-> FALSE, nin |-> 0, bad |-> FALSE,
                     dc |-> FALSE, disc |-> FALSE, unexp |-> FALSE, fault |-> FALSE, eof |-> FALSE,
                     rej |-> -1, hasmsg |-> FALSE, deadcall |-> FALSE, healthy |-> e.healthy]]
@@ -689,7 +693,7 @@ RetDrive(h, e) ==
             ELSE h3
       \* C10: a disconnect needs a cause
       timeout == h.pingAt >= 0 /\ h.now >= h.pingAt + 5000
-      h5 == IF r.k = "err" /\ r.v = "Disconnected" /\ ~o.deadcall /\ ~o.eof /\ ~o.disc /\ ~o.fault
+      h5 == IF r.k = "err" /\ r.v = "Disconnected" /\ ~o.deadcall /\ ~o.eof /\ ~o.disc /\ ~o.fault /\ ~h.c10off
             THEN Check(h4, timeout, "C10", "disconnected although no keep-alive timeout, end of stream or broker DISCONNECT occurred")
             ELSE h4
       \* C16: Ok(None) only after real wire progress
@@ -794,7 +798,7 @@ StepF(h, e) ==
      [h0 EXCEPT !.owed = SubSeq(@, h.aw + 1, Len(@)), !.aw = 0, !.op.prog = TRUE,
                 !.pingAt = IF h.pingOut /\ h.wtail = << >> THEN h.now ELSE @, !.pingOut = FALSE]
   ELSE IF e.r = "err" THEN [h0 EXCEPT !.op.fault = TRUE]
-  ELSE h0
+  ELSE [h0 EXCEPT !.pio = "f"]
 
 StepR(h, e) == DrainIn([IoOnDead(h) EXCEPT !.rtail = @ \o e.bytes])
 
@@ -856,22 +860,26 @@ Step(h0, e) ==
     [] e.e = "conn" -> StepConn(h, e)
     [] e.e \in {"publish", "subscribe", "unsubscribe", "poll", "recv", "drive", "disconnect"} -> StepCall(h, e)
     [] e.e = "w" -> StepW(h, e)
-    [] e.e = "wpend" -> IoOnDead(h)
+    [] e.e = "wpend" -> [IoOnDead(h) EXCEPT !.pio = "w"]
     [] e.e = "werr" -> [IoOnDead(h) EXCEPT !.op.fault = TRUE]
     [] e.e = "f" -> StepF(h, e)
     [] e.e = "r" -> StepR(h, e)
-    [] e.e = "rpend" -> IoOnDead(h)
+    [] e.e = "rpend" -> [IoOnDead(h) EXCEPT !.pio = "r"]
     [] e.e = "reof" -> [IoOnDead(h) EXCEPT !.op.eof = TRUE]
     [] e.e = "rerr" -> [IoOnDead(h) EXCEPT !.op.fault = TRUE]
     [] e.e = "yield" -> C10Yield(h, e.wake)
     [] e.e = "adv" ->
          \* time that passes while the client keeps running (it re-polls read without yielding,
          \* e.spin) is not the application oversleeping
-         [h EXCEPT !.now = e.to,
+         \* C10 presupposes a transport that accepts writes: once time has passed while a write or
+         \* flush was pending, the keep-alive monitors stand down for this connection
+         [h EXCEPT !.now = e.to, !.c10off = @ \/ (h.pio \in {"w", "f"} /\ h.pe = "yield"),
                    \* a deadline that was already over when the client named it means "wake me at
                    \* once": it keeps being polled, time that passes then is not oversleeping either
+                   \* (but then it expects to be polled continuously: a jump of more than 300 ms is)
                    !.overslept = @ \/ (~e.spin /\ (~(h.op.name \in {"poll", "recv"}) \/ h.wake < 0
-                                                   \/ (h.wake > h.now /\ e.to > h.wake)))]
+                                                   \/ (h.wake > h.now /\ e.to > h.wake)
+                                                   \/ (h.wake <= h.now /\ e.to > h.now + 300)))]
     [] e.e = "b" -> DrainBroker([h EXCEPT !.btail = @ \o e.bytes])
     [] e.e = "ret" -> StepRet(h, e)
     [] e.e = "cancel" -> StepCancel(h, e)
